@@ -29,7 +29,7 @@ OBLIGATIONS += [o for o in apply_obls("b") if "first" in o.name]
 
 META = {
     "level": "model_checking",
-    "level_text": "Bounded model checking (CBMC) of the real ldb_open / ldb_recover / ldb_new_db / ldb_recover_log_file / ldb_write_level0_table / ldb_remove_obsolete_files / ldb_maybe_schedule_compaction / ldb_destroy_internal of src/db_impl.c (#included) over a symbolic directory, symbolic MANIFEST counters, a symbolic record source per log and symbolic failures of every env call. Asserted: recovery replays a prefix-closed, ordered selection of each log (everything the reader returns, minus what it reports as dropped), never deletes, renames or truncates anything before the recovery edit is applied, afterwards removes only logs that were replayed completely (or were already obsolete), tables outside the version and the edit, and older MANIFESTs; a successful open ends with a live memtable, an open log named by logfile_number above every replayed log, last_sequence above every recovered sequence and the lock held; a failed open returns the error, leaves *dbptr NULL, releases the lock iff it was taken and closes everything; creating a new database commits CURRENT only after MANIFEST-1 was written, synced and closed.",
+    "level_text": "Bounded model checking (CBMC) of the real ldb_open / ldb_recover / ldb_new_db / ldb_recover_log_file / ldb_write_level0_table / ldb_remove_obsolete_files / ldb_maybe_schedule_compaction / ldb_destroy_internal of src/db_impl.c (#included) over a symbolic directory, symbolic MANIFEST counters, a symbolic record source per log and symbolic failures of every env call. Asserted: recovery replays a prefix-closed, ordered selection of each log (everything the reader returns, minus what it reports as dropped), never deletes, renames or truncates anything before the recovery edit is applied, afterwards removes only logs that were replayed completely (or were already obsolete), tables outside the version and the edit, and older MANIFESTs; a successful open ends with a live memtable, an open log named by logfile_number above every replayed log, last_sequence above every recovered sequence and the lock held; a failed open returns the error, leaves *dbptr NULL, releases the lock iff it was taken and closes everything; creating a new database commits CURRENT only after MANIFEST-1 was written, synced and closed. Also: the MANIFEST/CURRENT switch of the real ldb_versions_apply is ordered and failure-atomic, a reused MANIFEST is appended to at its real size, and the snapshot written at open replays to the same layout down to the deepest level.",
     "level_note": "Finding F3 (ldb_recover_log_file swallowed a failure to open a log when paranoid_checks is off; the log was then treated as recovered and deleted by ldb_open) was found by these obligations, is fixed in /repo (dba9c21) and is now asserted by every recover/open obligation. Trusted: CBMC's semantics of the goto-cc translation; the stubs below db_impl.c (log reader as a record source -- that a torn tail reads as a clean EOF and a damaged record is reported and skipped is C15.e; ldb_versions_recover / ldb_versions_apply by contract -- MANIFEST/CURRENT switching is C17/C05.b; table building -- C16); the prose composition 'second open / crash during recovery loses nothing further': until ldb_versions_apply succeeds no file the durable MANIFEST needs has been touched (asserted), so a crash there leaves the same logs to be replayed again; after it the new MANIFEST names the new log and the recovered tables. 'Opening succeeds on every crash image' is NOT decided as a whole-program statement, only these per-unit obligations.",
     "bounds": ["ldb_open: directory of <=2 (quick) / <=3 (thorough) names at recovery and <=2 / 3 at garbage collection, <=2 version tables, <=1 record per log, all options symbolic (create_if_missing, error_if_exists, paranoid_checks, reuse_logs, info_log/block_cache given or not), every env call may fail",
                "ldb_recover: directory of <=3 (quick) / <=4 (thorough) arbitrary distinct names, 62-bit numbers (16-bit for 4 names), <=2 tables, <=1 record per log",
